@@ -624,12 +624,16 @@ def gen_res():
     for i, par in enumerate(["xMid", "x", "", "none", "xMinYMax", "xMidYMid  slice", "defer xMidYMid", "slice"]):
         files["par%d.svg" % i] = ('<svg xmlns="http://www.w3.org/2000/svg" width="20" height="10" viewBox="0 0 10 10" preserveAspectRatio="%s"><rect width="5" height="5"/></svg>' % par, dict(mime="image/svg+xml", kind="svg"))
     pars = " ".join('<img src="par%d.svg" alt="pa%02d">' % (i, i) for i in range(8))
-    body = ("<p>%s</p>" % pars +'<table><colgroup><col span="0"><col span="x"></colgroup><tr><td colspan="0">o001</td><td rowspan="0">o002</td><td colspan="abc" rowspan="-1">o003</td><td colspan="1000">o004</td></tr><tr><td>o005</td></tr></table>'
+    # declarations / rules that are invalid in an unusual way (must be dropped, never crash)
+    oddcss = ('.q1 { font: 12px / } .q2 { font: 12px /; color: red } .q3 { font: / ahem } .q4 { string-set: a content(), ; bookmark-label: , } .q5 { margin: 1px 2px 3px 4px 5px; padding: / } '
+              '@page :nth(of a) { margin: 1px } @page :nth( ) { margin: 1px } @page :nth(2n + ) { margin: 2px } @page x:first:first:blank { size: } .q6 { transform: rotate() scale(,) ; grid-area: / / / ; content: counter() counters(,) attr() } '
+              '.q7 { background: url( ; } .q8 { quotes: "a"; font-family: , ; counter-reset: a b c 1 2 ; transition: } @media { p { color: blue } } @media ( { } @font-face { src: ; unicode-range: u+ } @counter-style { } @counter-style x { system: ; symbols: ; additive-symbols: 0 }\n')
+    body = ("<style>%s</style><p>%s</p>" % (oddcss, pars) + '<table><colgroup span="99999999999999"></colgroup><colgroup><col span="99999999999999"><col span="1001"></colgroup><tr><td class="q1 q2 q3 q4 q5 q6 q7 q8">o000</td></tr></table>' +'<table><colgroup><col span="0"><col span="x"></colgroup><tr><td colspan="0">o001</td><td rowspan="0">o002</td><td colspan="abc" rowspan="-1">o003</td><td colspan="1000">o004</td></tr><tr><td>o005</td></tr></table>'
             '<ol start="x" reversed><li value="z">o006</li><li>o007</li></ol><ol start="-3"><li>o008</li></ol>'
             '<p><img src="odd.svg" alt="alt1" width="-" height="1e"> <img src="odd.svg" width="0" height="0" alt="alt2"> <font size="+9" color="#zz">o009</font> <font size="">o010</font></p>'
             '<hr size="x" width="50%%"><pre width="0">o011</pre><p align="bogus" dir="x" lang="">o012</p>' + text)
     scenario("res-14", "res", doc(css0, body), files=files,
-             expect=dict(exp0, sentinels=W + ["o%03d" % i for i in range(1, 13)], fault_words=dict({"odd.svg": ["alt1", "alt2", "sv03"]}, **{"par%d.svg" % i: ["pa%02d" % i] for i in range(8)})))
+             expect=dict(exp0, sentinels=W + ["o%03d" % i for i in range(0, 13)], fault_words=dict({"odd.svg": ["alt1", "alt2", "sv03"]}, **{"par%d.svg" % i: ["pa%02d" % i] for i in range(8)})))
 
     # 13: underlined links with both engines (text decoration path), pre / tabs / rtl text
     css = css0 + "a { text-decoration: underline }\n.o { text-decoration: overline line-through }\npre { font-family: ahem; margin: 0 }\n"
